@@ -5024,3 +5024,344 @@ func hrMemoryStateOwnStore(w *World, r *Report, rule string) {
 	}
 	r.Check(ok && n == 1, rule, "NewMemoryState/store-of-its-own", f.Pos(), "contextMemory is a NewContext() made for this state (a store shared by all states lets two quotas whose key strings coincide share a window)")
 }
+
+// ---------------------------------------------------------------------------
+// part 13: twelfth wave (ten properties, 25 minutes per author)
+
+// indexGuarded: x[k] with a constant k is read only where len(x) is known to exceed k.
+func indexGuarded(w *World, r *Report, rule string, f *ssa.Function, name string, minSites int) {
+	n := 0
+	Instrs(f, func(in ssa.Instruction) {
+		ia, isIA := in.(*ssa.IndexAddr)
+		if !isIA {
+			return
+		}
+		k, isK := constInt(ia.Index)
+		if !isK {
+			return
+		}
+		if _, isSlice := ia.X.Type().Underlying().(*types.Slice); !isSlice {
+			return
+		}
+		if _, isAlloc := ia.X.(*ssa.Slice); isAlloc {
+			if _, lit := ia.X.(*ssa.Slice).X.(*ssa.Alloc); lit {
+				return // a literal being filled in
+			}
+		}
+		n++
+		ok := false
+		if c, isC := peel(ia.X).(*ssa.Call); isC && k == 0 && isCallTo(c, "strings.Split", "strings.SplitN") {
+			ok = true // strings.Split returns at least one element
+		}
+		for _, rel := range Rels(ia.Block()) {
+			var lenSide, other ssa.Value
+			op := rel.Op
+			if c, isC := peel(rel.L).(*ssa.Call); isC {
+				if b, isB := c.Call.Value.(*ssa.Builtin); isB && b.Name() == "len" && sameVal(c.Call.Args[0], ia.X) {
+					lenSide, other = rel.L, rel.R
+				}
+			}
+			if lenSide == nil {
+				if c, isC := peel(rel.R).(*ssa.Call); isC {
+					if b, isB := c.Call.Value.(*ssa.Builtin); isB && b.Name() == "len" && sameVal(c.Call.Args[0], ia.X) {
+						lenSide, other, op = rel.R, rel.L, flipOp(rel.Op)
+					}
+				}
+			}
+			if lenSide == nil {
+				continue
+			}
+			m, isM := constInt(other)
+			if !isM {
+				continue
+			}
+			switch op {
+			case "==":
+				ok = ok || m > k
+			case ">":
+				ok = ok || m >= k
+			case ">=":
+				ok = ok || m > k
+			case "!=":
+				ok = ok || (m == 0 && k == 0)
+			}
+		}
+		r.Check(ok, rule, name+"/constant-index-within-the-known-length", posOf(ia), "x[%d] is read under a condition that gives the list more than %d elements", k, k)
+	})
+	r.Check(n >= minSites, rule, name+"/constant-index-reads", f.Pos(), "%d reads at a constant index inspected", n)
+}
+
+func hrExtractDomainIndexes(w *World, r *Report, rule string) {
+	f := w.Fn("lunar/engine/streams/processors/utils", "ExtractDomainAndPath")
+	if f == nil {
+		r.Undec(rule, "ExtractDomainAndPath", token.NoPos, "function not found")
+		return
+	}
+	indexGuarded(w, r, rule, f, "ExtractDomainAndPath", 1)
+}
+
+// hrWholeCollectionProbed: the element-type probes look at every element.
+func hrWholeCollectionProbed(w *World, r *Report, rule string) {
+	for _, name := range []string{"isListOf", "isMapOf"} {
+		f := w.Fn("lunar/engine/streams/public-types", name)
+		if f == nil {
+			r.Undec(rule, name, token.NoPos, "function not found")
+			continue
+		}
+		sliced := 0
+		Instrs(f, func(in ssa.Instruction) {
+			if _, isSl := in.(*ssa.Slice); isSl {
+				sliced++
+			}
+		})
+		ok := sliced == 0 && len(loopHeadersOf(f)) == 1
+		for _, h := range loopHeadersOf(f) {
+			if len(loopBreaks(h)) != 0 {
+				ok = false
+			}
+		}
+		r.Check(ok, rule, name+"/every-element-probed", f.Pos(), "the probe ranges over the whole collection (no sub-slice, no break): NewParamValue asserts every element to the probed type without a check")
+	}
+}
+
+// hrAlwaysAMap: header helpers hand back a map, never nil.
+func hrAlwaysAMap(w *World, r *Report, rule string) {
+	f := w.Fn("lunar/engine/utils", "MakeHeadersLowercase")
+	if f == nil {
+		r.Undec(rule, "MakeHeadersLowercase", token.NoPos, "function not found")
+		return
+	}
+	ok, n := true, 0
+	for _, alt := range ReturnAlts(f, 0) {
+		n++
+		if _, isMk := peel(alt.Val).(*ssa.MakeMap); !isMk {
+			ok = false
+		}
+	}
+	r.Check(ok && n >= 1, rule, "MakeHeadersLowercase/always-a-map", f.Pos(), "every return is a made map (SetBody and UpdateBodyFromBodyMap write content-length into the headers of a message that came without any)")
+}
+
+// hrIsEmptyLooksAtAllThree: a filter result is empty only when it has no user, start or end flow.
+func hrIsEmptyLooksAtAllThree(w *World, r *Report, rule string) {
+	f := w.Fn(pkgFilter, "FilterResult.IsEmpty")
+	if f == nil {
+		r.Undec(rule, "FilterResult.IsEmpty", token.NoPos, "function not found")
+		return
+	}
+	seen := map[string]bool{}
+	Instrs(f, func(in ssa.Instruction) {
+		if fa, isFA := in.(*ssa.FieldAddr); isFA {
+			if n := fieldName(fa.X.Type(), fa.Field); n == "UserFlow" || n == "SystemFlowStart" || n == "SystemFlowEnd" {
+				seen[n] = true
+			}
+		}
+	})
+	r.Check(len(seen) == 3, rule, "FilterResult.IsEmpty/all-three-kinds", f.Pos(), "IsEmpty reads UserFlow, SystemFlowStart and SystemFlowEnd (read: %v)", keysOf(seen))
+}
+
+// hrMemberDelimiter: the separator of a concurrency member cannot be mistaken for part of an id.
+func hrMemberDelimiter(w *World, r *Report, rule string) {
+	c := w.constOf(pkgQuota, "memberDelimiter")
+	if c == nil {
+		r.Undec(rule, "memberDelimiter", token.NoPos, "constant not found")
+		return
+	}
+	s := constant.StringVal(c)
+	r.Check(len(s) >= 2, rule, "memberDelimiter/not-a-single-character", token.NoPos, "members are split on %q: at least two characters, because transaction ids (HAProxy's unique-id, client-supplied ids) contain single ':' and the expiry collector skips a member that does not split into three parts", s)
+}
+
+// hrWatcherGetsTheQueueTTL: the time-to-live watcher works with the configured TTL.
+func hrWatcherGetsTheQueueTTL(w *World, r *Report, rule string) {
+	f := w.Fn(pkgQProc, "NewProcessor")
+	if f == nil {
+		r.Undec(rule, "queue.NewProcessor", token.NoPos, "function not found")
+		return
+	}
+	cs := CallsIn(f, false, "queue.NewRequestsWatcher")
+	ok := len(cs) == 1 && strings.HasSuffix(Path(cs[0].Common().Args[0]), ".queueTTL")
+	r.Check(ok, rule, "queue.NewProcessor/watcher-built-with-queueTTL", f.Pos(), "NewRequestsWatcher(proc.queueTTL, ...): a waiter's verdict is due at its TTL, not at some other period")
+}
+
+// hrOneScopePerEncoder: all variables of one encoded action live in one scope.
+func hrOneScopePerEncoder(w *World, r *Report, rule string) {
+	for _, e := range []struct{ typ, method string }{
+		{"ModifyRequestAction", "ReqToSpoeActions"}, {"ModifyHeadersAction", "ReqToSpoeActions"}, {"GenerateRequestAction", "ReqToSpoeActions"},
+		{"EarlyResponseAction", "ReqToSpoeActions"}, {"ModifyResponseAction", "RespToSpoeActions"}, {"RetryRequestAction", "RespToSpoeActions"},
+	} {
+		f := w.Fn(pkgActions, e.typ+"."+e.method)
+		if f == nil {
+			continue
+		}
+		scopes := map[string]bool{}
+		for _, c := range CallsIn(f, false, "action.Actions).SetVar") {
+			if k, isK := constInt(c.Common().Args[1]); isK {
+				scopes[strconv.FormatInt(k, 10)] = true
+			} else {
+				scopes["?"] = true
+			}
+		}
+		r.Check(len(scopes) == 1, rule, e.typ+"/one-variable-scope", f.Pos(), "every SetVar of %s.%s uses the same scope (%v): the Lua side reads all of them under one prefix", e.typ, e.method, keysOf(scopes))
+	}
+}
+
+// hrTokenLookupAsWritten: a header an earlier remedy set is found under the name it was set with.
+func hrTokenLookupAsWritten(w *World, r *Report, rule string) {
+	f := w.Fn(pkgRemedies, "modifyRequestToUseAccount")
+	if f == nil {
+		r.Undec(rule, "modifyRequestToUseAccount", token.NoPos, "function not found")
+		return
+	}
+	n, ok := 0, true
+	Instrs(f, func(in ssa.Instruction) {
+		lk, isLk := in.(*ssa.Lookup)
+		if !isLk || !strings.HasSuffix(Path(lk.X), ".Headers") {
+			return
+		}
+		n++
+		if _, isCall := peel(lk.Index).(*ssa.Call); isCall || !strings.HasSuffix(Path(lk.Index), "Header.Name") {
+			ok = false
+		}
+	})
+	r.Check(ok && n >= 1, rule, "modifyRequestToUseAccount/header-looked-up-by-its-configured-name", f.Pos(), "the 'token already present' test looks the header up under token.Header.Name as configured (%d lookups)", n)
+}
+
+// hrPayloadDecodeErrorsReturned: an entry of a pushed configuration that does not decode rejects the payload.
+func hrPayloadDecodeErrorsReturned(w *World, r *Report, rule string) {
+	n := 0
+	for _, name := range []string{"parseFlows", "parseQuotas", "parsePathParams", "parseGatewayConfig", "parseMetricsConfig"} {
+		f := w.Fn(pkgSCfg, "ConfigurationPayload."+name)
+		if f == nil {
+			continue
+		}
+		for _, c := range CallsIn(f, false, "Encoding).DecodeString", "yaml.Unmarshal", "config.DecodeYAML", "streamconfig.decodeBase64") {
+			n++
+			r.Check(errReturned(f, c), rule, name+"/decode-error-returned/"+calleeShort(calleeID(c)), posOf(c), "a part that does not decode makes %s return the error (a payload is applied whole or not at all)", name)
+		}
+	}
+	r.Check(n >= 3, rule, "payload/decode-sites", token.NoPos, "%d decode sites inspected", n)
+}
+
+// hrApplyFlowsWipesEverything: /apply_flows replaces the configuration: everything a payload can write is wiped first.
+func hrApplyFlowsWipesEverything(w *World, r *Report, rule string) {
+	f := w.Fn(pkgSCfg, "ConfigurationPayload.CleanUpGatewayDirectories")
+	if f == nil {
+		r.Undec(rule, "CleanUpGatewayDirectories", token.NoPos, "function not found")
+		return
+	}
+	ok := len(CallsIn(f, false, "FileSystemOperation).CleanAll")) == 1 && len(CallsIn(f, false, "ConfigurationPayload).MakeCleanUpsByContent")) == 0
+	r.Check(ok, rule, "CleanUpGatewayDirectories/cleans-all", f.Pos(), "CleanUpGatewayDirectories is CleanAll (the by-content clean-up is for partial updates)")
+}
+
+// hrDefaultTimeoutMatchesTheImage: the engine's fallback for the SPOE processing timeout is the image's default.
+func hrDefaultTimeoutMatchesTheImage(w *World, r *Report, rule string) {
+	c := w.constOf(pkgConfig, "defaultProcessingTimeout")
+	raw, err := os.ReadFile(filepath.Join(w.Repo, "proxy/Dockerfile"))
+	if c == nil || err != nil {
+		r.Undec(rule, "defaultProcessingTimeout", token.NoPos, "constant or proxy/Dockerfile not found (%v)", err)
+		return
+	}
+	img := ""
+	for _, line := range strings.Split(string(raw), "\n") {
+		ws := strings.Fields(line)
+		for _, wd := range ws {
+			if strings.HasPrefix(wd, "LUNAR_SPOE_PROCESSING_TIMEOUT_SEC=") {
+				img = strings.Trim(strings.TrimPrefix(wd, "LUNAR_SPOE_PROCESSING_TIMEOUT_SEC="), `"'`)
+			}
+		}
+	}
+	ns, _ := constant.Int64Val(constant.ToInt(c))
+	sec, perr := strconv.ParseInt(img, 10, 64)
+	r.Check(perr == nil && ns == sec*1_000_000_000, rule, "defaultProcessingTimeout/equals-the-image-default", token.NoPos, "config.defaultProcessingTimeout (%d ns) is the LUNAR_SPOE_PROCESSING_TIMEOUT_SEC=%s of proxy/Dockerfile: the value HAProxy uses when the variable is not overridden", ns, img)
+}
+
+// hrTimestampParsedAsUTC: persisted timestamps are read back in UTC, as they were written.
+func hrTimestampParsedAsUTC(w *World, r *Report, rule string) {
+	f := w.Fn("lunar/shared-model/actions", "TimestampFromStringToInt64")
+	if f == nil {
+		r.Undec(rule, "TimestampFromStringToInt64", token.NoPos, "function not found")
+		return
+	}
+	ok := len(CallsIn(f, false, "time.Parse")) == 1
+	for _, c := range CallsIn(f, false, "time.ParseInLocation") {
+		ok = strings.HasSuffix(Path(c.Common().Args[2]), "time.UTC")
+	}
+	r.Check(ok, rule, "TimestampFromStringToInt64/utc", f.Pos(), "the layout has no zone: it is parsed with time.Parse (UTC) or ParseInLocation(..., time.UTC), never in the host's zone")
+}
+
+// hrHistogramKeptWhole: every status bucket is persisted, the "no response" ones included.
+func hrHistogramKeptWhole(w *World, r *Report, rule string) {
+	f := w.Fn(pkgDisc, "convertMapOfCountToInt")
+	if f == nil {
+		r.Undec(rule, "convertMapOfCountToInt", token.NoPos, "function not found")
+		return
+	}
+	n, ok := 0, true
+	Instrs(f, func(in ssa.Instruction) {
+		if mu, isMU := in.(*ssa.MapUpdate); isMU {
+			n++
+			for _, cd := range CondsOf(mu.Block()) {
+				if !strings.HasPrefix(Path(cd.V), "next(range(") {
+					ok = false
+				}
+			}
+		}
+	})
+	r.Check(ok && n == 1, rule, "convertMapOfCountToInt/every-bucket", f.Pos(), "every (status, count) pair is copied, under no condition")
+}
+
+// hrObfuscateStringHashes: a string handed to the obfuscator comes back hashed, whatever it looks like.
+func hrObfuscateStringHashes(w *World, r *Report, rule string) {
+	f := w.Fn(pkgObf, "Obfuscator.ObfuscateString")
+	if f == nil {
+		r.Undec(rule, "Obfuscator.ObfuscateString", token.NoPos, "function not found")
+		return
+	}
+	ok, n := true, 0
+	for _, alt := range ReturnAlts(f, 0) {
+		n++
+		if !isCallTo0(alt.Val, "Hasher).HashBytes") || len(alt.Conds) != 0 {
+			ok = false
+		}
+	}
+	r.Check(ok && n == 1, rule, "Obfuscator.ObfuscateString/always-hashed", f.Pos(), "ObfuscateString returns Hasher.HashBytes(raw) on its only path (a value that looks like a digest is a value)")
+}
+
+// hrHeaderKeyOnlyFromBracketForm: a header exclusion names its header in the ["..."] form only.
+func hrHeaderKeyOnlyFromBracketForm(w *World, r *Report, rule string) {
+	f := w.Fn("lunar/engine/streams/processors/har-collector", "extractHeaderKeyFromJSONPath")
+	if f == nil {
+		r.Undec(rule, "extractHeaderKeyFromJSONPath", token.NoPos, "function not found")
+		return
+	}
+	ok := len(CallsIn(f, false, "strings.LastIndex", "strings.Split")) == 0
+	hasEmpty := false
+	for _, alt := range ReturnAlts(f, 0) {
+		if s, isS := constString(alt.Val); isS && s == "" {
+			hasEmpty = true
+		}
+	}
+	r.Check(ok && hasEmpty, rule, "extractHeaderKeyFromJSONPath/no-key-from-other-exclusions", f.Pos(), "an exclusion that is not of the [\"name\"] form yields no header key (a body or query exclusion must not name a header)")
+}
+
+// hrLimiterSharesItsVacuumsLock: the limiter and the vacuum of its slots use one lock.
+func hrLimiterSharesItsVacuumsLock(w *World, r *Report, rule string) {
+	f := w.Fn("lunar/engine/utils/limit/concurrency", "NewLimiter")
+	if f == nil {
+		r.Undec(rule, "concurrency.NewLimiter", token.NoPos, "function not found")
+		return
+	}
+	vs := CallsIn(f, false, "vacuum.NewMapVacuum")
+	ok := len(vs) == 1
+	if ok {
+		a := vs[0].Common().Args
+		vm := a[len(a)-1]
+		found := false
+		for _, alt := range ReturnAlts(f, 0) {
+			if m := litField(alt.Val, "mutex"); m != nil && sameVal(m, vm) {
+				found = true
+			}
+		}
+		ok = found
+	}
+	r.Check(ok, rule, "concurrency.NewLimiter/one-lock-for-limiter-and-vacuum", f.Pos(), "Limiter.mutex is the very mutex handed to NewMapVacuum (the vacuum deletes from the slots map the limiter reads and writes)")
+}
